@@ -89,6 +89,17 @@ type Prog struct {
 	FieldDoc int `json:"field_doc"`
 }
 
+// earlier: the same declarations with the next doc texts of the menu
+func earlier(p Prog) Prog {
+	q := Prog{Shape: p.Shape, TypeDoc: (p.TypeDoc + 1) % len(docTexts), FieldDoc: p.FieldDoc}
+	for {
+		q.FieldDoc = (q.FieldDoc + 1) % len(docTexts)
+		if l := docTexts[q.FieldDoc].lines; len(l) == 0 || !strings.HasPrefix(l[0], "$T") {
+			return q
+		}
+	}
+}
+
 func (p Prog) String() string {
 	return fmt.Sprintf("%s typedoc=%s fielddoc=%s", shapes[p.Shape], docTexts[p.TypeDoc].name, docTexts[p.FieldDoc].name)
 }
@@ -277,6 +288,20 @@ func checkProgs(c *core.Ctx, progs []Prog) {
 		dirs = append(dirs, "p/"+name)
 		byDir["p/"+name] = p
 	}
+	// history: every package was generated before, from an EARLIER version of its source (same declarations,
+	// other doc texts); the source was edited since, the output of that run is still in the directory
+	t0 := pipe.Tree{}
+	for k, v := range t {
+		t0[k] = v
+	}
+	for d, p := range byDir {
+		t0[d+"/types.go"], _ = earlier(p).source(d[strings.LastIndex(d, "/")+1:])
+	}
+	if err := pipe.WriteTree(root, t0); err != nil {
+		c.Internal("%v", err)
+		return
+	}
+	_ = generate(c, root, dirs, func(string, string) {})
 	if err := pipe.WriteTree(root, t); err != nil {
 		c.Internal("%v", err)
 		return
@@ -402,7 +427,7 @@ func replay(c *core.Ctx, raw json.RawMessage) {
 func init() {
 	core.Register(&core.Prop{
 		ID: "C16", Level: "model_checking", Run: run, Replay: replay, Shards: 4,
-		Rule: "15 type shapes (exported/unexported/generic structs, embedding by value and by pointer, only-unexported fields, defined string/map/slice/func, interface, anonymous/empty/foreign/pointer field types, embedding of unexported and non-struct types) x 14 type-doc texts x 11 field-doc texts (quotes, backslashes, backquotes, %, @name', Unicode, blank line, tag line, leading name, name twice, longer word with the name as prefix); thorough: full product, quick: the diagonal + everything against none/plain/leading-name + a third of the rest. Every third package carries a //line directive that renames its source file. Each package is generated twice (byte-identical; built with the map-order seam the second run iterates every map of library and generator in descending order), compiled with the package and a harness-written check file, and run: RuntimeDoc() and RuntimeDoc(name) for every field, delegated field and unknown name vs the doc lines the harness wrote. Non-trivial = some doc text present; states = (shape, failed?)",
+		Rule: "15 type shapes (exported/unexported/generic structs, embedding by value and by pointer, only-unexported fields, defined string/map/slice/func, interface, anonymous/empty/foreign/pointer field types, embedding of unexported and non-struct types) x 14 type-doc texts x 11 field-doc texts (quotes, backslashes, backquotes, %, @name', Unicode, blank line, tag line, leading name, name twice, longer word with the name as prefix); thorough: full product, quick: the diagonal + everything against none/plain/leading-name + a third of the rest. Every third package carries a //line directive that renames its source file. Each package is first generated from an EARLIER version of its source (other doc texts) whose output stays in place, then generated twice from the current source (byte-identical; built with the map-order seam the second run iterates every map of library and generator in descending order), compiled with the package and a harness-written check file, and run: RuntimeDoc() and RuntimeDoc(name) for every field, delegated field and unknown name vs the doc lines the harness wrote. Non-trivial = some doc text present; states = (shape, failed?)",
 		Assumptions: []string{
 			"field docs starting with the field name, embedded fields with their own doc, [[embed]] lines and lines starting with go: are outside the alphabet",
 			"'leading type name removed' is read as: the first word is the name",
